@@ -27,16 +27,21 @@ COMMON_ASSUME = [
     "generated-input search never establishes absence: the verdict is 'held on everything explored'",
 ]
 
-PROPS = {
-    "C01": {
-        "bins": [
-            {"name": "c01", "pkg": "./zz_verif/c01", "run": ".", "shards": {"quick": 1, "thorough": 16}},
-        ],
-        "rule": "case = (scheme, key seed, encapsulation seed, alteration) drawn by rapid from edge-biased seeds over all 21 KEM schemes "
-                "(kem/schemes.All() + the two HPKE-only hybrids); thorough adds every single-bit flip of one honest ciphertext per scheme. "
-                "non-trivial = the case contains an altered ciphertext whose decapsulation returned without error (FO/implicit-rejection or combiner path exercised), "
-                "a marshal/unmarshal round trip, or a wrong-sender auth decapsulation; distinct by FNV-64 of (sub-check, seeds, alteration, ciphertext)",
-        "assumptions": COMMON_ASSUME + ["x/crypto/sha3 SHAKE256/SHA3-256 used to recompute the ML-KEM / Kyber rejection secret"],
-        "budget": {"quick": 900, "thorough": 3600},
-    },
-}
+
+import glob as _glob, importlib.util as _ilu, os as _os
+
+PROPS = {}
+MANIFEST_TEXT = {}
+for _f in sorted(_glob.glob(_os.path.join(_os.path.dirname(_os.path.abspath(__file__)), "propspecs", "C*.py"))):
+    _pid = _os.path.basename(_f)[:-3]
+    _spec = _ilu.spec_from_file_location("propspecs_" + _pid, _f)
+    _m = _ilu.module_from_spec(_spec)
+    _m.CPU_OFF = CPU_OFF
+    _m.COMMON_ASSUME = COMMON_ASSUME
+    try:
+        _spec.loader.exec_module(_m)
+        PROPS[_pid] = _m.SPEC
+        MANIFEST_TEXT[_pid] = _m.MANIFEST
+    except Exception as _e:  # a broken spec must not take the other properties down
+        import sys as _sys
+        print("props.py: cannot load %s: %r" % (_f, _e), file=_sys.stderr)
